@@ -49,6 +49,10 @@ class Repo:
         if not self.src.is_dir():
             raise AnalysisError(f"source directory {self.src} not found")
         self.modules: Dict[str, Module] = {}
+        from .canon import canonicalise, load_known
+
+        known = None if os.environ.get("HCVERIF_NO_CANON") else load_known()
+        self.canon_stats: Dict[str, Any] = {}
         for path in sorted(self.src.rglob("*.py")):
             rel = path.relative_to(self.src)
             parts = list(rel.with_suffix("").parts)
@@ -60,6 +64,10 @@ class Repo:
                 tree = ast.parse(text, filename=str(path))
             except SyntaxError as error:
                 raise AnalysisError(f"cannot parse {path}: {error}")
+            if known is not None:
+                st = canonicalise(name, tree, known)
+                if st:
+                    self.canon_stats[name] = st
             _set_parents(tree)
             for node in ast.walk(tree):
                 node._module = name  # type: ignore[attr-defined]
@@ -238,6 +246,7 @@ class Ctx:
             raise AnalysisError(f"internal: rule {rule} not declared")
         self.instances.append(Instance(rule, where, construct, bool(ok), nontrivial))
         file, line = self.loc(node) if at is None else at
+        line = int(line or 0)  # inlined statements carry fractional positions (see canon)
         if self._sample_rules.get(rule, 0) < 3:
             self._sample_rules[rule] = self._sample_rules.get(rule, 0) + 1
             self.samples.append(
